@@ -670,7 +670,11 @@ impl TypeChecker {
         };
 
         if diverges {
-            todo!("make a pretty error")
+            return Err(self.error_simple(
+                "cannot match on an expression that never produces a value",
+                "this expression diverges",
+                expr.id,
+            ));
         }
 
         let Type::Name(type_name) = &t_expr else {
@@ -1298,8 +1302,15 @@ impl TypeChecker {
                 }))
             }
             DeclarationKind::Enum(Some((ty, variant))) => {
-                if let Some(_field) = idents.next() {
-                    todo!("make a nice error for variant cannot have field")
+                if let Some(field) = idents.next() {
+                    return Err(self.error_simple(
+                        format!(
+                            "enum variant `{}` has no field `{}`",
+                            variant.name, field.node
+                        ),
+                        "an enum variant has no fields or methods",
+                        field.id,
+                    ));
                 }
                 Ok(ResolvedPath::EnumConstructor {
                     ty: ty.clone(),
